@@ -407,7 +407,43 @@ def r04_8(prog: Program, rep: Report, pe, urows):
         rep.check(ok and numeric_paths > 0, "R04.8", f"{r.pred_name}->{r.routine.name}", f.loc, f"{cls}: numbers are read through fromtimestamp(x, UTC) unaltered ({numeric_paths} numeric paths)", f"{cls}: {why or 'no numeric path found'}", detail="epoch")
 
 
+def r04_9(prog: Program, rep: Report):
+    """unixtime(): durations -> total_seconds(); times -> today in the value's own zone with all four clock fields;
+    parser normalisation tests the narrower class first (datetime before date)."""
+    f = prog.function(f"{C.SERDES}.unixtime")
+    dt = ("param", f.params[0])
+    td_ok = time_ok = False
+    for p, r in P.returns(P.paths_of(prog, f)):
+        if any(pol and T.is_call_to(g, "builtins.isinstance") and g[2] == (dt, ("ref", "datetime.timedelta")) for g, pol in p.guards()):
+            td_ok = r == ("call", ("attr", dt, "total_seconds"), (), ())
+        for s in T.walk(r):
+            if s[0] == "call" and s[1][0] == "attr" and s[1][2] == "replace" and T.contains(s[1][1], lambda y: y[0] == "call" and ((y[1][0] == "attr" and y[1][2] == "now") or T.refname(y[1]) == "datetime.datetime.now")):
+                kw = dict(s[3])
+                now = s[1][1]
+                tz = dict(now[3]).get("tz") or (now[2][0] if now[2] else None)
+                if all(kw.get(k) == ("attr", dt, k) for k in ("hour", "minute", "second", "microsecond")) and tz == ("attr", dt, "tzinfo"):
+                    time_ok = True
+    rep.check(td_ok, "R04.9", f.qualname, f.loc, "a duration becomes its total_seconds()", "unixtime(timedelta) is not dt.total_seconds()", detail="timedelta")
+    rep.check(time_ok, "R04.9", f.qualname, f.loc, "a time is placed on today's date in its own zone, hour/minute/second/microsecond copied", "unixtime(time) does not copy all four clock fields onto now(tz=dt.tzinfo)", detail="time")
+    for name in ("_nomalize_dt", "_normalize_number"):
+        g = prog.functions.get(f"{C.SERDES}.{name}")
+        if g is None:
+            continue
+        # on every path that decides for `date`, `datetime` has been excluded first
+        ok = True
+        seen = False
+        for p in P.paths_of(prog, g):
+            tests = [(T.refname(gd[2][1]), pol) for gd, pol in p.guards() if T.is_call_to(gd, "builtins.issubclass") and len(gd[2]) == 2 and gd[2][0] == ("param", "td")]
+            names = [n for n, _ in tests]
+            if ("datetime.date", True) in tests:
+                seen = True
+                if ("datetime.datetime", False) not in tests[: names.index("datetime.date")]:
+                    ok = False
+        rep.check(ok, "R04.9", g.qualname, g.loc, "the date arm is reached only after datetime was excluded (datetime is a date)" if seen else "no explicit date arm (falls through after datetime/time)", "the date test precedes the datetime test: a datetime target is truncated to a date", detail="narrow-first")
+
+
 def run(prog: Program, rep: Report, tier: str):
+    rep.rule("R04.9", "unixtime and parser-normalisation contracts", floor=3)
     rep.rule("R04.8", "numbers for date/datetime/time go through fromtimestamp(x, UTC) unaltered", floor=3)
     rep.rule("R04.6", "canonical text reaches the target constructor before the lossy loader", floor=3)
     rep.rule("R04.7", "temporal reconstructions keep every field incl. offset and fold (shared with R01.3)", floor=3)
@@ -424,6 +460,7 @@ def run(prog: Program, rep: Report, tier: str):
     r04_5(prog, rep, pe, urows)
     r04_6(prog, rep, pe, urows)
     r04_8(prog, rep, pe, urows)
+    r04_9(prog, rep)
     # exact-class reconstruction keeps every field, offset and fold included (shared with R01.3)
     from ..report import Report as _R, absorb
     from . import c01
